@@ -3,6 +3,8 @@ package sim
 import (
 	"strings"
 
+	"github.com/volatiletech/authboss/v3"
+
 	"golang.org/x/crypto/bcrypt"
 )
 
@@ -294,10 +296,27 @@ func (w *World) kbUpdate(o *Obs) {
 		// the account that logged in; otherwise it is the rotation of the
 		// cookie the request presented
 		a := w.acctByPID(o.uidAfter())
-		if uid, ok := w.loginPut(o); ok && (st.RM || st.Kind == "oauth2_callback") {
+		nPut := 0
+		for _, ev := range o.CookEvents {
+			if ev.Kind == authboss.ClientStateEventPut && ev.Key == "rm" {
+				nPut++
+			}
+		}
+		rotated := false
+		if ck := o.presented("cookie"); ck != nil && ck.Known != nil && ck.Known.Acct >= 0 && ck.Known.Acct < len(w.Accts) && o.uidBefore() == "" {
+			// the middleware re-authenticated the cookie's account (its uid is the first one put)
+			for _, ev := range o.SessEvents {
+				if ev.Kind == authboss.ClientStateEventPut && ev.Key == "uid" {
+					rotated = ev.Value == w.Accts[ck.Known.Acct].PID
+					break
+				}
+			}
+			if rotated && nPut < 2 {
+				a = ck.Known.Acct // only the rotation issued a cookie
+			}
+		}
+		if uid, ok := w.loginPut(o); ok && (st.RM || st.Kind == "oauth2_callback") && (!rotated || nPut >= 2) {
 			a = w.acctByPID(uid)
-		} else if ck := o.presented("cookie"); ck != nil && ck.Known != nil && o.uidBefore() == "" {
-			a = ck.Known.Acct
 		}
 		kb.addSecret(&Secret{Kind: "rm", Acct: a, Browser: st.B, Value: v})
 	}
